@@ -200,7 +200,8 @@ Formats:
 
 	for _, m := range ms.Modules {
 		if mods[m.Name] == nil {
-			mods[m.Name] = m
+			// Of several revisions, print the one the bare name refers to.
+			mods[m.Name] = ms.Modules[m.Name]
 			names = append(names, m.Name)
 		}
 	}
